@@ -21,7 +21,8 @@ assertions they break and are asserted in small dedicated parts:
   f19_region  C05:postselected-superposition:state_vector-raises (terms with fewer photons
               than post-selected are dropped from one list but not from the other)
 
-`C05_SKIP_KNOWN_REGIONS=1` drops the dedicated parts (used by the sensitivity protocol).
+`C05_SKIP_KNOWN_REGIONS=1` drops the dedicated parts (used by the sensitivity protocol);
+`C05_ASSUME_FIXED=f15,f16,...` lifts the corresponding exclusions (candidate fixes).
 """
 
 from __future__ import annotations
@@ -93,7 +94,7 @@ FLOORS = {
     "overlap:gram": 0.08,
     "overlap:scalar": 0.08,
     "input:bunched": 0.15,
-    "input:superposition": 0.04,
+    "input:superposition": 0.03,
     "marginals_checked": 0.1,
     "matrix:complex": 0.4,
 }
@@ -261,7 +262,11 @@ def _call(f):
         return "exc", e
 
 
-ALL_KNOWN = ("f15", "f16", "f17", "f18", "f19")
+# Regions excluded from the main search.  Once a fix is committed, delete its entry here (the
+# dedicated part then guards the fix, the main search covers the region); for trying a
+# candidate fix in a scratch tree use C05_ASSUME_FIXED=f15,f16,... with PIQUASSO_REPO.
+ALL_KNOWN = tuple(k for k in ("f15", "f16", "f17", "f18", "f19")
+                  if k not in os.environ.get("C05_ASSUME_FIXED", "").split(","))
 
 
 def evaluate(case, ctx, exclude=ALL_KNOWN):
